@@ -63,6 +63,7 @@ def ops(ps):
         ("parent", lambda p: p.parent()), ("parents", lambda p: p.parents()),
         ("nice_set", lambda p: p.nice(5)), ("ionice_set", lambda p: p.ionice(ps.IOPRIO_CLASS_BE, 3)),
         ("rlimit_set", lambda p: p.rlimit(R, (512, 1024))), ("cpu_affinity_set", lambda p: p.cpu_affinity([0])),
+        ("cpu_affinity_set_all", lambda p: p.cpu_affinity([])),      # documented: [] = all eligible CPUs (reads status)
         ("send_signal", lambda p: p.send_signal(signal.SIGTERM)), ("suspend", lambda p: p.suspend()),
         ("resume", lambda p: p.resume()), ("terminate", lambda p: p.terminate()), ("kill", lambda p: p.kill()),
         ("wait0", lambda p: p.wait(0)), ("repr", lambda p: repr(p)),
@@ -116,6 +117,8 @@ def faultable(kind, path, pid):
     """Is this access a per-process access of `pid` (or a syscall on it)?"""
     if kind in ("kill", "waitpid") or kind.startswith("native:"):
         return f"({pid}" in path
+    if path.startswith("/vmapped/"):
+        return True           # files the process has mapped: consulted on its behalf (memory_maps)
     m = PROC_PATH.match(path)
     return bool(m) and int(m.group(1)) == pid
 
@@ -151,6 +154,7 @@ def run_op(opname, fixture, plan, do_post=False):
     vk = vkernel.VK()
     vk.table = t
     vk.mount("/vproc", t)
+    vk.mount("/vmapped", vkernel.MemFS({}))
     fired = []
     out = dict(fired=fired)
     with vk:
